@@ -17,6 +17,7 @@ PROPS = {
     "C19": ("c19", "other"),
     "C08": ("c08", "other"),
     "C09": ("c09", "other"),
+    "C10": ("c10", "other"),
     "C12": ("c12_c13", "translation_validation"),
     "C13": ("c12_c13", "translation_validation"),
 }
